@@ -274,7 +274,9 @@ func RunC04(env *Env, rep *Report) {
 		}
 		cases = append(cases, c04FromCase(base, "hoisting", names, func() []*Atom { return nil }))
 	}
-	for i, l := range enumMapEntries(2, 2) {
+	msLists := enumMapEntries(2, 2)
+	msLists = append(msLists, []string{"table:"}, []string{"plain", "table:"}, []string{"table:", "inline"}, []string{"table:", "table:i"})
+	for i, l := range msLists {
 		base := c08Case(l, []string{"cmd", "if", "while", "text"}[i%4])
 		ms := base.Prog.Tops[0].(*MapScriptsTop)
 		names := func() []interp.Value {
@@ -291,7 +293,55 @@ func RunC04(env *Env, rep *Report) {
 			}
 			return ns
 		}
-		cases = append(cases, c04FromCase(base, "mapscripts", names, func() []*Atom { return nil }))
+		mc := c04FromCase(base, "mapscripts", names, func() []*Atom { return nil })
+		closed := mc.Oracle
+		mc.Oracle = func(x *OracleCtx) *Violation {
+			if v := closed(x); v != nil {
+				return v
+			}
+			// every label a header or table row refers to, other than the
+			// author's own plain targets, is generated and must be defined
+			var plain []interp.Value
+			for _, e := range ms.Entries {
+				if e.Kind == "plain" {
+					plain = append(plain, e.Label.Val)
+				}
+				for _, r := range e.Rows {
+					if r.Label != nil {
+						plain = append(plain, r.Label.Val)
+					}
+				}
+			}
+			for _, v := range x.Case.Variants {
+				out := x.Res[v.Name].Out
+				for _, l := range outputLines(out, false) {
+					var lbl interp.Value
+					if rest, ok := trimPrefixLit(l, "\tmap_script "); ok {
+						_, lbl, _ = splitFirst(rest, ", ")
+					} else if rest, ok := trimPrefixLit(l, "\tmap_script_2 "); ok {
+						if _, r2, ok := splitFirst(rest, ", "); ok {
+							_, lbl, _ = splitFirst(r2, ", ")
+						}
+					}
+					if lbl == nil {
+						continue
+					}
+					own := false
+					for _, p := range plain {
+						if sameValue(x.C, p, lbl) == 1 {
+							own = true
+						}
+					}
+					if !own {
+						if n := countLabelDefs(x.C, out, lbl); n != 1 {
+							return &Violation{Sub: "reference", Msg: fmt.Sprintf("variant %s: the map-script entry label %s is defined %d times", v.Name, interp.ToString(lbl), n)}
+						}
+					}
+				}
+			}
+			return nil
+		}
+		cases = append(cases, mc)
 	}
 	rep.Technique = "symbolic execution of the real compiler (go/ssa) with all names symbolic; label uniqueness / resolution as solver queries over all names, run-off on the control-flow graph of the emitted text"
 	rep.Explanation = "Bounded symbolic verification, not a proof. For every skeleton of the statement-tree family (C01 bounds, user labels in every position incl. after end/return and in unreachable code), the switch family (case lists with labelled bodies and bodies that branch before a label), the hoisting templates of C06, the mapscripts family and files mixing script statements with inline map scripts, the real code is executed symbolically with all user-chosen names symbolic and constrained only by the property's precondition (user names do not imitate generated names). Asserted on both optimize settings: (i) no two label definitions can be equal for any names (solver query per pair); (ii) every generated jump/case target and every hoisted text/movement label used as an argument is defined; (iii) every label the author wrote is defined exactly once; (iv) in the control-flow graph of the emitted text no instruction that can fall through - reachable or not - runs past the end of its script into another script's entry, data, or the end of the file."
